@@ -321,6 +321,10 @@ func (p *Prefix) Apply(ra *ndp.RouterAdvertisement) error {
 func (p *Prefix) current() ([]netip.Prefix, error) {
 	// Expand ::/N to all unique, non-link local prefixes with matching length
 	// on this interface.
+	if p.Addrs == nil {
+		return nil, errNotPrepared
+	}
+
 	addrs, err := p.Addrs()
 	if err != nil {
 		return nil, fmt.Errorf("failed to fetch IP addresses: %v", err)
@@ -400,7 +404,7 @@ func (p *Prefix) lifetimes() (valid, pref time.Duration) {
 		panic("plugin: cannot calculate deprecated Prefix lifetimes with zero epoch")
 	}
 
-	now := p.TimeNow()
+	now := timeNow(p.TimeNow)
 
 	var (
 		validT = p.Epoch.Add(p.ValidLifetime)
@@ -517,6 +521,10 @@ func (r *Route) current() ([]netip.Prefix, error) {
 	//
 	// TODO(mdlayher): if we choose to accept syntax other than ::/0, we'll have
 	// to update this logic.
+	if r.Routes == nil {
+		return nil, errNotPrepared
+	}
+
 	routes, err := r.Routes()
 	if err != nil {
 		return nil, err
@@ -590,7 +598,7 @@ func (r *Route) lifetime() time.Duration {
 		panic("plugin: cannot calculate deprecated Route lifetimes with zero epoch")
 	}
 
-	now := r.TimeNow()
+	now := timeNow(r.TimeNow)
 	lt := r.Epoch.Add(r.Lifetime)
 
 	if now.Equal(lt) || now.After(lt) {
@@ -686,6 +694,10 @@ func (r *RDNSS) current() (netip.Addr, error) {
 	// Expand :: to one of the IPv6 addresses on this interface. The "best"
 	// address will be chosen by comparing all addresses on the interface for
 	// desired properties.
+	if r.Addrs == nil {
+		return netip.Addr{}, errNotPrepared
+	}
+
 	addrs, err := r.Addrs()
 	if err != nil {
 		return netip.Addr{}, fmt.Errorf("failed to fetch IP addresses: %v", err)
@@ -809,6 +821,21 @@ func isEUI64(ip netip.Addr) bool {
 	// Look for the "ff:fe" pattern in the address.
 	b := ip.As16()
 	return b[11] == 0xff && b[12] == 0xfe
+}
+
+// errNotPrepared indicates that a Plugin which relies on dynamic information
+// about a network interface was applied before Prepare was called, such as when
+// metrics are scraped before an interface has been initialized.
+var errNotPrepared = errors.New("plugin has not been prepared for use with a network interface")
+
+// timeNow returns the current time using fn, or the system time if fn is nil
+// because the Plugin has not been prepared yet.
+func timeNow(fn func() time.Time) time.Time {
+	if fn == nil {
+		return time.Now()
+	}
+
+	return fn()
 }
 
 // durString converts a time.Duration into a string while also recognizing
